@@ -26,7 +26,7 @@
        which the assert does not fire -- every cluster outside the open finding F9 that the harness has tried -- and (N4e)
        is what argmin 0.8.1's NelderMead::init / next_iter do on non-NaN costs (read from its source, not proved).  The
        former form "(N3) the cost kernel is not NaN for EVERY parameter vector" was false of every binary64 kernel
-       (p = [nan; ..] gives NaN): it survives only in Fit_proofs.fit_skeleton_total_lemma, which C09 still imports.
+       (p = [nan; ..] gives NaN); the lemmas that carried it have been removed (C09_vertex_total_partial uses (N3e) too).
        C14_fit_instance_binary64 instantiates all hypotheses with the real cost kernel of coq/Recon/Helix.v over binary64.
      * C14_fit_skeleton_total_binary64: (N1), (N2) discharged for the binary64 instance (Flocq link).
      * C14_vertex_skeleton_total: likewise for find_vertices / beamline_clusters / the vertex cost, PROVIDED
@@ -174,7 +174,8 @@ Example C14_fit_instance_binary64_runs :
   /\ PrimFloat.is_nan (B64.real_point_val B64.soft_libm [PrimFloat.nan; 0; 0; 1; 0; 1]%float
                          (mk_spoint 0x1.c28f5c28f5c29p-4 0x1.3333333333333p-2 0x1.999999999999ap-4)) = true.
 Proof. vm_compute. repeat split; reflexivity. Qed.
-(* exact instances (numbers = nat) of the older all-vectors form, which Signal/AvalTotal_proofs.v (C09) imports *)
+(* exact instances (numbers = nat; the optimiser asks the first vertex of the simplex and returns it) of the same
+   hypotheses (N1)-(N4e), (V1)-(V5), for ALL clusters of >= 3 points / ALL track lists *)
 Example C14_fit_instance : forall pts, 3 <= length pts ->
   Toy.fit pts <> Panic /\ (forall k, Toy.fit pts = Err k -> k = E_noinit).
 Proof. exact Toy.fit_total. Qed.
